@@ -18,7 +18,7 @@ def gen(rng, tier):
     n = 220 if tier == 'quick' else 5000
     cases = []
     for _ in range(n):
-        o = progs.Opts(open_leaves=0.5 if rng.random() < 0.2 else 0.0, control=rng.random() < 0.7, cut=True, opaque_cut=False, builtins=False)
+        o = progs.Opts(cut_tail=0.25, forwarders=0.2, open_leaves=0.5 if rng.random() < 0.2 else 0.0, control=rng.random() < 0.7, cut=True, opaque_cut=False, builtins=False)
         p = progs.gen_program(rng, o)
         # force more cuts: append `, !` or prepend `!,` to some rule bodies
         cl = []
